@@ -257,6 +257,8 @@ def obligations(tier):
     for N, T in itertools.product(dims, dims):
         obs.append((ob_spearman, dict(name=f"C20|spearman_corr|m={N},tmax={T}", m=N, tmax=T), 900))
         for bins in ((1, 2) if not th else (1, 2, 3)):
+            if bins == 3 and N * T > 4:
+                continue          # (tried: three bins with more than four samples per array exhaust the 900 s budget)
             if T >= 2:
                 obs.append((ob_mutual_information, dict(name=f"C20|mutual_information|N={N},T={T},bins={bins}", N=N, T=T, bins=bins), 900))
                 obs.append((ob_ts_tests, dict(name=f"C20|_test_mutual_information|N={N},T={T},bins={bins}", fn="_test_mutual_information", N=N, T=T, bins=bins), 900))
